@@ -106,6 +106,24 @@ def run(ck):
               f"the write is guarded by `{pname} == {vname}` being false (equality, not identity)"
               if ok else "the write of _output is not guarded by an equality comparison of the "
               "previous and the new value", fi, w.ast)
+        # ... and skipped ONLY for equal values: a normal exit that avoids the write lies behind
+        # the true outcome of the equality test (an identity short-cut, `a is b or a == b`, drops
+        # the change nan -> nan of one and the same object, which compares unequal)
+        if pname is not None:
+            from sa.cfg import canon_fact, decompose
+            wants = {canon_fact(ast.parse(t_, mode='eval').body, True)
+                     for t_ in (f'{pname} == {vname}', f'{vname} == {pname}')} | \
+                    {canon_fact(ast.parse(t_, mode='eval').body, False)
+                     for t_ in (f'{pname} != {vname}', f'{vname} != {pname}')}
+            eqT = [n for n in g.nodes if n.kind == 'branch' and any(
+                canon_fact(e_, p_) in wants for e_, p_ in decompose(n.test.ast, n.polarity))]
+            witq = g.path_avoiding(g.entry, [g.exit], avoid=[w] + eqT)
+            ck.ob(R2, f"{fid} :: no change only for equal values", witq is None and bool(eqT),
+                  "every normal exit that skips the write lies behind `previous == value` being true"
+                  if witq is None and eqT else
+                  "the write (and with it the output event) can be skipped although the previous "
+                  "and the new value compare unequal (e.g. an identity short-cut)", fi, w.ast,
+                  witness=path_witness(g, witq))
         lo = [n for n in g.nodes if n.kind == 'for' and norm(n.ast.iter) == 'self._output_events']
         le = [n for n in g.nodes if n.kind == 'for' and norm(n.ast.iter) == 'self._every_output_events']
         enq = nodes_calling(g, 'put_nowait')
